@@ -488,17 +488,114 @@ pub fn case_strategy() -> impl Strategy<Value = Case> {
         .prop_map(|(sc, driving, asset)| Case { sc, driving, asset })
 }
 
+/// The ROM tape routine entered so that the instruction which reaches the fast loader's trap
+/// address (0x056B) is the one during which a frame ends. The call is placed by a calibrated
+/// delay loop (a probe run with a breakpoint on 0x0556 tells where an uncalibrated program enters
+/// the routine); 32 consecutive paddings of 4 T-states sweep the end of `CP A` (the instruction in
+/// front of the trap) across the frame boundary, so every alignment occurs.
+#[derive(Clone, Debug, Serialize, Deserialize)]
+pub struct EdgeCase {
+    pub machine: Machine,
+    pub pad: u8,
+    /// 0 Partition([2]), 1 Partition([3]), 2 Max(0), 3 Max(2), 4 Partition([1,2])
+    pub driving: u8,
+    pub ay: bool,
+}
+
+fn edge_scenario(c: &EdgeCase, n: u16) -> Scenario {
+    let mut body = vec![0xF3, 0x01, n as u8, (n >> 8) as u8, 0x0B, 0x78, 0xB1, 0x20, 0xFB];
+    body.extend(std::iter::repeat(0x00).take(c.pad as usize));
+    body.extend_from_slice(&[0xDD, 0x21, 0x00, 0xB8, 0x11, 0x05, 0x00, 0x3E, 0xFF, 0x37, 0xCD, 0x56, 0x05, 0x32, 0xF0, 0xB7]);
+    Scenario {
+        machine: c.machine,
+        body,
+        handler_nops: 0,
+        im2: false,
+        ay: c.ay,
+        beeper: true,
+        rate: 44100,
+        volume: 100,
+        tape: 2,
+        events: vec![],
+        frames: 3,
+        seed: c.pad as u64,
+    }
+}
+
+pub fn check_edge(c: &EdgeCase, rec: &mut Rec) -> Result<(), String> {
+    const N0: u16 = 2000;
+    let flen = c.machine.frame_len() as i64;
+    // probe: where does the uncalibrated program enter the ROM routine?
+    let probe = EdgeCase { pad: 0, ..c.clone() };
+    let mut e = build(&edge_scenario(&probe, N0), AssetKind::Mem, true)?;
+    let f0 = e.verif_total_frames();
+    e.set_speed(EmulationMode::FrameCount(1));
+    e.debug_interface().unwrap().mode = BpMode::At(vec![0x0556]);
+    let info = e.emulate_frames(LONG).map_err(|x| format!("{:?}", x))?;
+    if info.stop_reason != EmulationStopReason::Breakpoint || e.verif_total_frames() != f0 {
+        return Err("harness: probe did not stop at 0x0556 within the first frame".into());
+    }
+    let t0 = e.verif_frame_clocks() as i64;
+    // CP A starts 84 T-states after the entry; with pad = 16 it should start just before the frame end
+    let n = N0 as i64 + (flen - 2 - 84 - 64 - t0).div_euclid(26);
+    if !(1..60000).contains(&n) {
+        return Err(format!("harness: calibration out of range (entry at {} with {} iterations)", t0, N0));
+    }
+    let sc = edge_scenario(c, n as u16);
+    // is the trap reached by the frame-crossing instruction? (a breakpoint on the trap address:
+    // the block has been loaded by then and the first frame has just ended)
+    let mut e = build(&sc, AssetKind::Mem, true)?;
+    let f0 = e.verif_total_frames();
+    e.set_speed(EmulationMode::FrameCount(1));
+    e.debug_interface().unwrap().mode = BpMode::At(vec![0x056B]);
+    let info = e.emulate_frames(LONG).map_err(|x| format!("{:?}", x))?;
+    let aligned = info.stop_reason == EmulationStopReason::Breakpoint && e.verif_total_frames() == f0 + 1 && e.verif_frame_clocks() < 4;
+    let before = info.stop_reason == EmulationStopReason::Breakpoint && e.verif_total_frames() == f0;
+    let driving = match c.driving % 5 {
+        0 => Driving::Partition(vec![2]),
+        1 => Driving::Partition(vec![3]),
+        2 => Driving::Max(0),
+        3 => Driving::Max(2),
+        _ => Driving::Partition(vec![1, 2]),
+    };
+    let case = Case { sc, driving, asset: AssetKind::Mem };
+    let mut inner = Rec::default();
+    check(&case, &mut inner).map_err(|m| format!("{} [trap entered with padding {}: {}]", m, c.pad, if aligned { "the instruction in front of the trap address crosses the frame end" } else if before { "trap reached before the frame end" } else { "trap reached after the frame end" }))?;
+    rec.eval();
+    if aligned {
+        rec.nontrivial(fnv(format!("{:?}", c).as_bytes()));
+        rec.class("trap reached by the frame-crossing instruction");
+    } else if before {
+        rec.class("trap reached before the frame end");
+    } else {
+        rec.class("trap reached after the frame end");
+    }
+    Ok(())
+}
+
 pub fn run(run: &mut Run) {
     let t = run.tier;
     run.explore("drivings", t.pick(8_000, 200_000), case_strategy, check);
+    let mut edges = Vec::new();
+    for machine in [Machine::K48, Machine::K128] {
+        for pad in 0..32u8 {
+            for driving in 0..5u8 {
+                edges.push(EdgeCase { machine, pad, driving, ay: pad % 2 == 0 });
+            }
+        }
+    }
+    run.enumerate("event-on-the-frame-crossing-instruction", edges, true, check_edge);
 }
 
 pub fn replay(run: &mut Run, phase: &str, case: &serde_json::Value) -> Result<(), String> {
+    if phase == "event-on-the-frame-crossing-instruction" {
+        return run.replay_one::<EdgeCase, _>(phase, case, check_edge);
+    }
     run.replay_one::<Case, _>(phase, case, check)
 }
 
 pub const LEVEL: &str = "exploration";
-pub const RULE: &str = "scenario = machine x generated interrupt-driven program (ALU, memory and screen writes, beeper/border OUTs, keyboard+EAR, Kempston and mouse reads stored to RAM, AY register writes with read-back, 128K paging, LDIR, HALT, EI/DI) with a self-counting IM 1 / IM 2 handler x sound settings (AY, beeper, sample rate 8000..96000, volume) x tape (none / playing / stopped with fast loading on / stopped with fast loading off) x input script (key / joystick / mouse events attached to frame indices) x K = 2..12 frames, started from a SNA file. The reference run drives it one frame per call, draining audio. The run under test uses one of: the same again (repeatability, audio compared bit for bit), a partition into FrameCount(n) calls, maximum-speed mode with scripted stopwatch readings (zeros, non-monotonic, large), breakpoint stops after generated instruction counts with resumption, audio never drained, sound switched off, sound switched on and off between frames; and delivers the initial file, the tape image and (with short reads) the ROM images through the harness asset, rustzx's BufferCursor, a real temporary file (FileAsset), GzipAsset, or an asset returning 1..255 bytes per read. At every frame count where the run under test stops on a frame boundary, a hash of registers, all RAM banks, paging, frame clock, canvas and border buffers must equal the reference run's. non-trivial = >= 2 frames and a driving or asset different from the reference; distinct = hash of the case";
+pub const RULE: &str = "scenario = machine x generated interrupt-driven program (ALU, memory and screen writes, beeper/border OUTs, keyboard+EAR, Kempston and mouse reads stored to RAM, AY register writes with read-back, 128K paging, LDIR, HALT, EI/DI) with a self-counting IM 1 / IM 2 handler x sound settings (AY, beeper, sample rate 8000..96000, volume) x tape (none / playing / stopped with fast loading on / stopped with fast loading off) x input script (key / joystick / mouse events attached to frame indices) x K = 2..12 frames, started from a SNA file. The reference run drives it one frame per call, draining audio. The run under test uses one of: the same again (repeatability, audio compared bit for bit), a partition into FrameCount(n) calls, maximum-speed mode with scripted stopwatch readings (zeros, non-monotonic, large), breakpoint stops after generated instruction counts with resumption, audio never drained, sound switched off, sound switched on and off between frames; and delivers the initial file, the tape image and (with short reads) the ROM images through the harness asset, rustzx's BufferCursor, a real temporary file (FileAsset), GzipAsset, or an asset returning 1..255 bytes per read. At every frame count where the run under test stops on a frame boundary, a hash of registers, all RAM banks, paging, frame clock, canvas and border buffers must equal the reference run's. non-trivial = >= 2 frames and a driving or asset different from the reference; distinct = hash of the case. Phase event-on-the-frame-crossing-instruction (enumerated): a program that enters the ROM tape routine (stopped tape, fast loading on) after a calibrated delay, 32 consecutive paddings of 4 T-states x both machines x five drivings, so that for some padding the instruction in front of the fast loader's trap address is the one during which the frame ends; the same comparison against the one-frame-per-call run; non-trivial there = a probe run with a breakpoint on the trap address stops with the frame counter just advanced and fewer than 4 T-states on the frame clock";
 pub const ASSUMPTIONS: &[&str] = &[
     "inputs are applied between emulate_frames calls at the same frame indices in all drivings (the property's 'inputs applied at frame boundaries')",
     "total frame count comes from the cfg(rustzx_verif) frame counter hook",
